@@ -13,6 +13,11 @@ CONSTANTS
   BindApis = {"tuple"}
   FreshConfs <- LockFresh
   ConstNames = {}
+  BindFilter <- AnyBind
+  ConstVals = {}
+  QuerySpellings = {}
+  CallMaxExtra = 1
+  CallExtraKw = {"z"}
   CallsWithReq = FALSE
   DevKwEval = FALSE
 VIEW ViewUnordered
